@@ -41,7 +41,7 @@ def tla_set(xs):
 def cfg(init, invs, post=None, **kw):
     c = dict(CtxAll=tla_set(range(255)), CtxEmit="{}", CtxEnum="{}")
     c.update(kw)
-    t = "INIT %s\nNEXT Next\nCHECK_DEADLOCK FALSE\n" % init + "".join("INVARIANT %s\n" % i for i in invs)
+    t = "INIT %s\nNEXT %s\nCHECK_DEADLOCK FALSE\n" % (init, init.replace("Init", "Next")) + "".join("INVARIANT %s\n" % i for i in invs)
     if post:
         t += "POSTCONDITION %s\n" % post
     return t + "CONSTANTS\n" + "".join("  %s = %s\n" % kv for kv in c.items())
